@@ -697,6 +697,11 @@ func (g *graph) compile(ctx context.Context, opt *graphCompileOptions) (*composa
 		if node.inputType() == nil || node.outputType() == nil {
 			return nil, fmt.Errorf("node[%s]'s input or output type cannot be inferred: it has no data connection", key)
 		}
+		if node.g == nil && node.cr != nil && node.cr.isPassthrough && node.cr.inputType == nil {
+			// both sides of the node are maps (WithInputKey and WithOutputKey), so no neighbour can
+			// tell what the passthrough node itself hands from the one to the other
+			return nil, fmt.Errorf("passthrough node[%s]'s type cannot be inferred: its input key and output key hide it from its neighbours", key)
+		}
 	}
 
 	// toValidateMap isn't empty means there are nodes that cannot infer type
